@@ -254,6 +254,20 @@ fn marker_cases(max_len: usize, thorough: bool) -> Vec<Vec<u8>> {
         }
     }
     out.push(vec![b'F', b'J', b'L', 3, 0]);
+    // longer markers with the right magic: every version byte followed by one trailing byte, and every version byte of
+    // the alphabet followed by two (a parser that looks at the wrong position, or at the last byte, must not be fooled)
+    for v in 0..=255u8 {
+        for a in alpha {
+            out.push(vec![b'F', b'J', b'L', v, a]);
+        }
+    }
+    for v in alpha {
+        for a in alpha {
+            for b in alpha {
+                out.push(vec![b'F', b'J', b'L', v, a, b]);
+            }
+        }
+    }
     out.sort();
     out.dedup();
     out
@@ -563,7 +577,7 @@ pub fn run(tier: &str) -> i32 {
     o.cov("fixtures_checked", json!(fixtures));
     let prev = o.coverage.get("distinct_outcomes").and_then(|v| v.as_u64()).unwrap_or(0);
     o.cov("distinct_outcomes", json!(prev + outcomes.lock().unwrap().len() as u64 + tally.len() as u64));
-    o.cov("rule", json!("(A) every enabled program up to the depth over {clone database handle, open keyspace, clone keyspace handle, write, queue background work, snapshot, drop handle i, second open attempt as Database/SingleWriterTx/OptimisticTx} for each of the three database kinds: while a Database or Keyspace handle lives every second open must return Locked and leave a recursive hash of the directory unchanged; after the last drop all three kinds must open and show the last write; with real worker threads (1 and 2) additionally no thread named fjall:worker may remain (polled up to 500 ms). (B) version marker: every byte string of length 0..4 (thorough 0..5) over {F,J,L,0,1,2,3,4,255}, every version byte after the magic, extra bytes after a correct header, on a fresh database; a reduced set (absent, truncated, wrong magic, other versions) on a database with tables and on one whose 0.jnl was rotated away; the v1/v2 fixtures: anything but FJL\\x03 must be refused with InvalidVersion and an unchanged directory hash. (E3) handles dropped on different threads while fjall's own workers have queued work: all schedules up to the preemption bound."));
+    o.cov("rule", json!("(A) every enabled program up to the depth over {clone database handle, open keyspace, clone keyspace handle, write, queue background work, snapshot, drop handle i, second open attempt as Database/SingleWriterTx/OptimisticTx} for each of the three database kinds: while a Database or Keyspace handle lives every second open must return Locked and leave a recursive hash of the directory unchanged; after the last drop all three kinds must open and show the last write; with real worker threads (1 and 2) additionally no thread named fjall:worker may remain (polled up to 500 ms). (B) version marker: every byte string of length 0..4 (thorough 0..5) over {F,J,L,0,1,2,3,4,255}, every version byte after the magic, every version byte followed by one trailing byte of that alphabet and every version byte of the alphabet followed by two, extra bytes after a correct header, on a fresh database; a reduced set (absent, truncated, wrong magic, other versions) on a database with tables and on one whose 0.jnl was rotated away; the v1/v2 fixtures: anything but FJL\\x03 must be refused with InvalidVersion and an unchanged directory hash. (E3) handles dropped on different threads while fjall's own workers have queued work: all schedules up to the preemption bound."));
     o.assumptions = vec![
         "snapshots/iterators hold no Database handle and are not required to keep the lock".into(),
         "a correct header followed by extra bytes is outside what the property defines: either outcome is accepted and counted".into(),
